@@ -18,7 +18,12 @@ git init -q . ; git apply "$md/patch.diff" || { echo "PATCH DOES NOT APPLY"; exi
 timeout 600 go build ./... </dev/null || echo "BUILD FAILS"
 timeout 900 go test -vet=off -count=1 ./... </dev/null >$S/base.out 2>&1; echo "baseline suite with patch: rc=$? (want 0)"
 if [ -n "$demo" ]; then rundemo; echo "demo with patch: rc=$? (want non-zero)"; tail -5 $S/demo.out | cut -c1-200; fi
-rsync -a --exclude .work --exclude .git --exclude seeded --exclude evidence --exclude replays /verif/ $S/verif/
+if [ -n "${SCRATCH_VERIF_HEAD:-}" ]; then
+  # the committed state of /verif (so that edits in progress there do not matter)
+  mkdir -p $S/verif; git -C /verif archive HEAD -- . ':!seeded' ':!evidence' | tar -x -C $S/verif
+else
+  rsync -a --exclude .work --exclude .git --exclude seeded --exclude evidence --exclude replays /verif/ $S/verif/
+fi
 mkdir -p $S/verif/evidence $S/verif/.work/bin
 sed -i "s#=> /repo#=> $S/repo#" $S/verif/go.mod
 cd $S/verif
